@@ -1290,7 +1290,11 @@ def _is_wrapper_call(t):
 
 def real_calls(f):
     """call sites that are not desugaring plumbing (into_future/poll/branch/...)"""
-    return [bb for bb in f.calls() if not _is_wrapper_call(f.blocks[bb]['t'])]
+    rc = f.__dict__.get('_real_calls')
+    if rc is None:
+        rc = [bb for bb in f.calls() if not _is_wrapper_call(f.blocks[bb]['t'])]
+        f.__dict__['_real_calls'] = rc
+    return list(rc)
 
 
 def callee_of(f, bb):
